@@ -83,6 +83,8 @@ var axioms = []axiom{
 	{[]string{"u8lastw"}, "(assert (forall ((s Str) (q Int)) (! (=> (and (<= 0 q) (< q (slen s)) (u8bnd s q)) (= (u8lastw s (+ q (u8width s q))) (u8width s q))) :pattern ((u8width s q)))))", "UTF8-BW"},
 	{[]string{"u8bnd"}, "(assert (forall ((s Str)) (! (u8bnd s 0) :pattern ((u8bnd s 0)))))", "UTF8"},
 	{[]string{"u8bnd"}, "(assert (forall ((s Str) (q Int)) (! (=> (and (<= 0 q) (< q (slen s)) (u8bnd s q)) (u8bnd s (+ q (u8width s q)))) :pattern ((u8width s q)))))", "UTF8"},
+	// STR: replacing something that does not occur changes nothing
+	{[]string{"str_replace"}, "(assert (forall ((s Str) (x Str) (y Str)) (! (=> (not (str_contains s x)) (= (str_replace s x y) s)) :pattern ((str_replace s x y)))))", "STR"},
 	// UNI: ASCII behaviour of the unicode predicates
 	{[]string{"uni_digit"}, "(assert (forall ((r Int)) (! (=> (< r 128) (= (uni_digit r) (and (<= 48 r) (<= r 57)))) :pattern ((uni_digit r)))))", "UNI"},
 	{[]string{"uni_letter"}, "(assert (forall ((r Int)) (! (=> (< r 128) (= (uni_letter r) (or (and (<= 65 r) (<= r 90)) (and (<= 97 r) (<= r 122))))) :pattern ((uni_letter r)))))", "UNI"},
